@@ -515,8 +515,6 @@ def check_function(fail, prop, q, f, decl, path, safe, is_method, opts, is_ctor=
                         for r in rets:
                             if len(r) > i:
                                 need.add(LIT_NAME[r[i][1]])
-                            else:
-                                need.add("Nothing")
                         if i >= len(res):
                             if need - {"Nothing"}:
                                 fail("C07", f"{q}: no result at position {i + 1} although returns produce {sorted(need)}", decl=q)
